@@ -70,7 +70,9 @@ class Ctx:
             inl = inline.inline_helpers(f)
             if inl:
                 info = dict(info, inlined_helpers=inl)
-            from . import webs, mirrors
+            from . import webs, mirrors, copysync
+            rw, fd = copysync.run(f)
+            info = dict(info, deferred_copies_rewritten=rw, deferred_copy_findings=fd)
             info = dict(info, mirror_locals=mirrors.fold_mirrors(f))
             info = dict(info, web_splits=webs.split_webs(f))
             self.fact_info[config] = info
@@ -148,6 +150,38 @@ class Ctx:
     def require(self, cond, what):
         if not cond:
             raise Inconclusive("anchor missing: " + what)
+
+
+def report_copy_sync(ctx):
+    """Generic rule <PROP>.SYNC: a state field of a body anchored in this property that is updated on a local working
+    copy must be stored back before every return and before any child is polled (see engine/copysync.py)."""
+    import json as _json
+    anchors = set()
+    try:
+        for line in open(os.path.join(VERIF, "properties.jsonl")):
+            d = _json.loads(line)
+            if d["id"] == ctx.prop:
+                anchors = set(d.get("anchors", {}).get("files", []))
+    except OSError:
+        pass
+    rid = ctx.prop + ".SYNC"
+    ctx.rule(rid, "a state field updated through a local working copy is stored back on every path to a return and before any child poll")
+    for cfg, m in sorted(ctx._models.items()):
+        ctx.current_config = cfg
+        n = 0
+        for b in m.F.bodies:
+            fs = b.j.get("copy_sync")
+            if not fs:
+                continue
+            file_ = (b.span or "").split(":")[0]
+            if file_ not in anchors:
+                continue
+            for f_ in fs:
+                n += 1
+                what = "returns" if "return" in f_["kinds"] else "polls a child"
+                ctx.fail(rid, b.def_, "`%s` (working copy of %s) is modified and the body %s before it is stored back" % (f_["local"], f_["place"], what),
+                         site=(f_["at"] or [b.span])[0], path=["modified at %s" % x for x in f_.get("modified_at", [])])
+        ctx.ok(rid, "<crate>", "no dirty working copy of a state field reaches a return or a child poll (%s)" % cfg, nontrivial=False)
 
 
 def load_known_findings():
